@@ -496,8 +496,9 @@ impl BtpInner {
             .session
             .is_ack_due(Instant::now(), self.ack_timeout_secs as _)
         {
+            // NOTE: `len` is 0 when our own send window is exhausted; the ACK is then
+            // sent once the peer has acknowledged something and the window re-opens
             let len = self.session.prep_tx_data(&[], &mut 0, buf)?;
-            assert!(len > 0);
 
             return Ok(len);
         }
